@@ -289,7 +289,9 @@ func runProcess(d *driver.Driver, cs *Case, prog *Program, res *Result, h hostCt
 			args.In = outs[k.InFrom]
 		}
 		d.EnqueueLaunchKernel(q, k.CO, k.L.Grid, k.L.WG, &args)
-		d.DrainCommandQueue(q)
+		if !prog.EnqueueAll || i == len(prog.Kernels)-1 {
+			d.DrainCommandQueue(q)
+		}
 		progress.Add(1)
 		res.KernelInfo = append(res.KernelInfo, map[string]any{"launch": k.L, "insts": k.NInst, "mem_insts": k.NMem, "features": k.Feat})
 		if i == prog.ReupAfter && i+1 < len(prog.Kernels) {
